@@ -227,7 +227,14 @@ def _exp_parallel(bars_entries, bpm):
     return ev
 
 
+# General MIDI program names 0..7 (from the GM level 1 sound set), enough to know the index of the names used here
+REF_NAMES = ["Acoustic Grand Piano", "Bright Acoustic Piano", "Electric Grand Piano", "Honky-tonk Piano", "Electric Piano 1", "Electric Piano 2", "Harpsichord", "Clavi"]
+INSTR_NAME = "Harpsichord"
+
+
 def c18_tracks(pi: int, o1: int, o2: int, vel: int, ch: int, bi: int, ntr: int, named: bool) -> bool:
+    global INSTR_NAME
+    INSTR_NAME = P.get("instr", "Harpsichord")
     bpm = pick(BPMS, bi)
     ntr = enum(ntr, 1, 4)
     x, y = _mk(pi, o1, o2, vel, ch)
@@ -241,7 +248,7 @@ def c18_tracks(pi: int, o1: int, o2: int, vel: int, ch: int, bi: int, ntr: int, 
     for i, e in enumerate(ents):
         ins = None
         if i == 0:
-            ins = MidiInstrument("Harpsichord" if fork(named) else "")
+            ins = MidiInstrument(INSTR_NAME if fork(named) else "")
         elif i == 1:
             ins = Piano()
         t = Track(ins)
@@ -264,7 +271,7 @@ def c18_tracks(pi: int, o1: int, o2: int, vel: int, ch: int, bi: int, ntr: int, 
     for i in range(ntr):
         prog = 1
         if i == 0 and named:
-            prog = MidiInstrument.names.index("Harpsichord")
+            prog = REF_NAMES.index(INSTR_NAME) if INSTR_NAME in REF_NAMES else 1
         instr.append(("instr", chans[i], prog, 0))
     exp = instr + _exp_parallel(ents, bpm) + _exp_parallel(ents, bpm)
     return r == {"bpm": bpm} and _same_events(s.ev, exp) and _same_events(o.ev, exp) and _balanced(s.ev)
@@ -310,6 +317,8 @@ def claims(tier):
         cl.append(Claim("bar[%s]" % shape, c18_bar, params={"shape": shape}, group="c18_bar", pre=[pre5, lambda bi: 0 <= bi < len(BPMS)], timeout=1200 if q else 3000, bounds="play_Bar shape %s x 4 bpm values; octaves, velocity, channel symbolic; observer attached twice then detached; return value; total sleep" % shape))
     cl.append(Claim("track", c18_track, pre=[pre5, lambda bi: 0 <= bi < len(BPMS)], timeout=1200 if q else 3000, bounds="play_Track over two bars with a tempo-changing container; 4 start bpm values; scalars symbolic"))
     cl.append(Claim("tracks", c18_tracks, pre=[pre5, lambda bi, ntr: 0 <= bi < len(BPMS) and 1 <= ntr <= 3], timeout=1500 if q else 3000, bounds="play_Tracks with 1..3 parallel tracks of equal rhythm over two bars; MIDI (named / unnamed) and plain instruments; scalars symbolic"))
+    for nm in ("Acoustic Grand Piano", "Clavi", "No Such Instrument"):
+        cl.append(Claim("tracks[instr=%s]" % nm, c18_tracks, params={"instr": nm}, group="c18_tracks", pre=[pre5, lambda bi, ntr: bi == 0 and 1 <= ntr <= 2 and True, lambda pi: pi == 0], timeout=1500 if q else 3000, bounds="play_Tracks, first track's MIDI instrument named %r (program %s)" % (nm, REF_NAMES.index(nm) if nm in REF_NAMES else "1: unknown name")))
     cl.append(Claim("composition", c18_tracks, params={"composition": True}, pre=[pre5, lambda bi, ntr: 0 <= bi < 2 and 1 <= ntr <= 3], timeout=1500 if q else 3000, bounds="play_Composition, as 'tracks'"))
     cl.append(Claim("control_change", c18_control_change, timeout=300, bounds="channel, control number, value: every integer (unbounded, symbolic)"))
     cl.append(Claim("cc_helpers", c18_cc_helpers, timeout=300, bounds="modulation / main_volume / pan: channel and value every integer"))
